@@ -29,7 +29,7 @@ def e_val(v):
 
 
 EXCODE = {"TypeError": 1, "ValueError": 2, "NameError": 3, "ZeroDivisionError": 4, "KeyError": 5,
-          "AttributeError": 6}
+          "AttributeError": 6, "ResolveError": 7}
 
 
 def e_exc(name):
@@ -59,7 +59,8 @@ Definition pexc : P exc := fun l =>
   match l with
   | 1 :: r => Some (TypeError, r) | 2 :: r => Some (ValueError, r) | 3 :: r => Some (NameError, r)
   | 4 :: r => Some (ZeroDivisionError, r) | 5 :: r => Some (KeyError, r)
-  | 6 :: r => Some (AttributeError, r) | _ :: r => Some (OtherError, r) | [] => None
+  | 6 :: r => Some (AttributeError, r) | 7 :: r => Some (ResolveError, r)
+  | _ :: r => Some (OtherError, r) | [] => None
   end.
 Fixpoint prep {A : Type} (p : P A) (n : nat) : P (list A) := fun l =>
   match n with
